@@ -6,13 +6,13 @@ use crate::iogen::*;
 use crate::json::J;
 use crate::rng::Rng;
 
-pub const RULE: &str = "case = one generated motif file (format in {JASPAR raw, JASPAR 2016, TRANSFAC, UniPROBE}; DNA, protein where the format allows; 1..600 records so that the JASPAR readers compact their buffer many times; widths 1..40; counts 0..u32::MAX (TRANSFAC: < 2^24, integer or x.25 decimals); optional description / accession / name / DE present or absent; symbol rows / columns shuffled or partial; optional VV header and DT/CO/BF/BS/CC/RN blocks for TRANSFAC; blank lines between UniPROBE records) read under 9 delivery schedules: Cursor, and a monitor-owned Read behind BufReader::with_capacity(c), c in {1,2,3,7,64,4096,file length,random} with whole / 1-byte / random short reads and injected ErrorKind::Interrupted. Oracle = the generator's model: same number of records, same order, fields as written (trimmed), every cell at (position, symbol column), zero elsewhere, then end of input. The bundled corpora (JASPAR2024.pwm, prodoric.transfac, test files) are checked against an independent line-based parser under the same schedules. Non-trivial = file with >= 2 records; distinct = distinct file bytes.";
+pub const RULE: &str = "case = one generated motif file (format in {JASPAR raw, JASPAR 2016, TRANSFAC, UniPROBE}; DNA, protein where the format allows; 1..600 records so that the JASPAR readers compact their buffer many times; widths 1..40; counts 0..u32::MAX (TRANSFAC: < 2^24, integer or x.25 decimals); optional description / accession / name / DE present or absent; symbol rows / columns shuffled or partial; optional VV header and DT/CO/BF/BS/CC/RN blocks for TRANSFAC; blank lines between UniPROBE records; free-text fields may contain or end in `//`, `XX`, `P0`; 30% of the files are also read with CRLF line ends) read under 9 delivery schedules: Cursor, and a monitor-owned Read behind BufReader::with_capacity(c), c in {1,2,3,7,64,4096,file length,random} with whole / 1-byte / random short reads and injected ErrorKind::Interrupted. Oracle = the generator's model: same number of records, same order, fields as written (trimmed), every cell at (position, symbol column), zero elsewhere, then end of input. The bundled corpora (JASPAR2024.pwm, prodoric.transfac, test files) are checked against an independent line-based parser under the same schedules. Non-trivial = file with >= 2 records; distinct = distinct file bytes.";
 
 pub const REQUIRED: &[&str] = &[
     "format.jaspar", "format.jaspar16", "format.transfac", "format.uniprobe", "alphabet.protein", "records.1",
     "records>100", "file>64KiB", "schedule.cursor", "schedule.capacity1", "schedule.one_byte_reads",
     "schedule.interrupts", "schedule.whole_file", "corpus.JASPAR2024.pwm", "corpus.prodoric.transfac",
-    "corpus.test_files", "field.description_absent", "field.description_present", "columns.shuffled_or_partial", "width>=100",
+    "corpus.test_files", "field.description_absent", "field.description_present", "columns.shuffled_or_partial", "width>=100", "newline.crlf.jaspar", "newline.crlf.jaspar16", "newline.crlf.transfac", "newline.crlf.uniprobe",
 ];
 
 fn check_file(case: u64, rng: &mut Rng, rep: &mut Report, format: Format, protein: bool, text: &[u8], expect: &[Rec], label: &str) {
@@ -121,6 +121,18 @@ fn gen_case(case: u64, rng: &mut Rng, rep: &mut Report, cfg: &Config) {
         rep.nontrivial(d.get());
     }
     check_file(case, rng, rep, format, protein, &f.text, &f.records, "generated");
+    if rng.chance(0.3) {
+        // the same file with Windows line ends: the readers split lines on line_ending / trim the carriage return
+        let mut crlf = Vec::with_capacity(f.text.len() + f.text.len() / 16);
+        for &b in f.text.iter() {
+            if b == b'\n' {
+                crlf.push(b'\r');
+            }
+            crlf.push(b);
+        }
+        rep.cover(&format!("newline.crlf.{}", format.name()));
+        check_file(case, rng, rep, format, protein, &crlf, &f.records, "generated, CRLF line ends");
+    }
     rep.sample(|| {
         J::obj()
             .set("case", J::UInt(case))
